@@ -391,6 +391,11 @@ func (vs *ValueSet) FromSignature(values []reflect.Value) error {
 		values = []reflect.Value{structOut}
 	}
 
+	// An empty value set (a built function without inputs) has nothing to load.
+	if len(vs.values) == 0 {
+		return nil
+	}
+
 	// Get our first result which should be our struct
 	structVal := values[0]
 	for i, v := range vs.values {
